@@ -55,10 +55,16 @@ def _source_of(graph: str, m: str, v: int) -> str:
 		if m == 'c':
 			return 'from vm.d import make\n\nvc = make()\n' if v == 1 else 'from vm.d import make\n\nvc = [make()]\n'
 		return 'from vm.b import vb\nfrom vm.c import vc\n\nx = vb\ny = vc\n' if v == 1 else 'from vm.b import vb\nfrom vm.c import vc\n\nx = vb\ny = vc\nz = 0\n'
+	if graph == 'Twins':
+		# the two leaves are written from ONE family of contents: what vm.b holds in one generation vm.c may hold in another
+		if m in ('b', 'c'):
+			return LEAF[v]
+		return 'from vm.b import make as mb\nfrom vm.c import make as mc\n\nx = mb()\ny = mc()\n' + ('' if v == 1 else 'z = 0\n')
 	raise ValueError(graph)
 
 
 GRAPHS = {
+	'Twins': {'mods': ['a', 'b', 'c'], 'targets': ['a', 'b', 'c'], 'init': {'c': 2}},
 	'Chain': {'mods': ['a', 'b', 'c'], 'targets': ['a', 'b', 'c']},
 	'Pair': {'mods': ['b', 'c'], 'targets': ['b', 'c']},
 	'Diamond': {'mods': ['a', 'b', 'c', 'd'], 'targets': ['d', 'a', 'c', 'b']},
@@ -100,7 +106,7 @@ class World:
 		with open(os.path.join(root, 'config.yml'), 'w') as f:
 			yaml.safe_dump(config, f)
 		for m in self.mods:
-			self.edit(m, 1)
+			self.edit(m, GRAPHS[graph].get('init', {}).get(m, 1))
 
 	# -- operations ------------------------------------------------------------------------------------------
 	def src_path(self, m: str) -> str:
@@ -117,6 +123,17 @@ class World:
 		self.times[m] = t if t is not None else self.times.get(m, 0) + 1
 		stamp = 1_700_000_000 + 10 * self.times[m]
 		os.utime(self.src_path(m), (stamp, stamp))
+
+	def swap(self, m1: str, m2: str) -> None:
+		"""the contents of the two files exchanged; both get the next modification time"""
+		with open(self.src_path(m1)) as f1, open(self.src_path(m2)) as f2:
+			t1, t2 = f1.read(), f2.read()
+		for m, text in ((m1, t2), (m2, t1)):
+			with open(self.src_path(m), 'w') as f:
+				f.write(text)
+			self.times[m] = self.times.get(m, 0) + 1
+			stamp = 1_700_000_000 + 10 * self.times[m]
+			os.utime(self.src_path(m), (stamp, stamp))
 
 	def run(self, enabled: bool, force: bool) -> str:
 		"""One run of the real command-line runner = one fresh application (own loader memo, module table, DB)."""
